@@ -1,4 +1,9 @@
+#[cfg(not(torrent_bootstrap_verif))]
 use std::{collections::HashMap, fs::{self, OpenOptions}, io::{Seek, SeekFrom, Write as IoWrite}, sync::Mutex};
+#[cfg(torrent_bootstrap_verif)]
+use std::{collections::HashMap, io::{Seek, SeekFrom, Write as IoWrite}};
+#[cfg(torrent_bootstrap_verif)]
+use crate::verif::{fs::{self, OpenOptions}, sync::Mutex};
 
 use crate::{finder::TorrentMetadataEntry, orchestrator::OrchestrationPiece, solver::PieceMatchResult};
 
